@@ -1,5 +1,7 @@
 """C14 -- Surface Evolver dumps are parsed faithfully."""
+import math
 import os
+from fractions import Fraction
 import numpy as np
 import common as C
 import gen
@@ -14,12 +16,17 @@ TRUSTED = ["Model/SEParse.v (token level) tied to surface_evolver.get_cells / ge
            "what 'laid out like the shipped ones' means"]
 ASSUMPTIONS = ["generated coordinates and densities stay 1e-6 away from rounding ties"]
 TESTED_NOT_PROVED = ["numeric fields (coordinates, densities, multipliers) and the interface reference tension (mean of mesh-edge densities) are compared by the oracle"]
-IMPORTS = "From Coq Require Import String.\nFrom Forsys Require Import Model.CaseUtil Model.SEParse.\nOpen Scope string_scope.\n"
+IMPORTS = "From Coq Require Import String.\nFrom Forsys Require Import Model.CaseUtil Model.SEParse Model.Round.\nOpen Scope string_scope.\n"
 WORKDIR = os.path.join(C.WORK, "dumps")
 
 
 def rnd(x, k):
     return round(float(x), k)
+
+
+def rnd_np(x, k):
+    """round() of a numpy.float64 (the density comes out of a pandas column): numpy's rint(x * 10^k) / 10^k"""
+    return float(np.around(np.float64(x), k))
 
 
 def safe(val, k, digits):
@@ -39,9 +46,26 @@ def make_dump(rng, spec, path):
     vmap = {v: pool[i] for i, v in enumerate(vids)}
     scale = float(rng.choice([1.0, 1e-3, 1e3]))
     coords = {}
+    # the tissue is translated so that one vertex has an abscissa, another an ordinate, exactly on a three-decimal rounding tie
+    # (odd multiples of 1/16 are the ties that are binary64 numbers): round() sends them to the even neighbour
+    tx = ty = 0.0
+    tie_x = tie_y = None
+    if scale >= 1.0 and rng.random() < 0.7:
+        v, x, y = spec["vertices"][int(rng.integers(0, len(spec["vertices"])))]
+        tie_x = (vmap[v], (2 * math.floor(x * scale * 8) + 1) / 16.0)
+        tx = tie_x[1] - x * scale
+        v, x, y = spec["vertices"][int(rng.integers(0, len(spec["vertices"])))]
+        tie_y = (vmap[v], -(2 * math.floor(y * scale * 8) + 1) / 16.0 if rng.random() < 0.5 else (2 * math.floor(y * scale * 8) + 1) / 16.0)
+        if rng.random() < 0.5:
+            # a decimal tie that is not a binary64 number: the double next to it is rounded as its exact value says
+            tie_y = (tie_y[0], float("%.4f" % (math.floor(y * scale * 1000) / 1000.0 + 0.0005)))
+        ty = tie_y[1] - y * scale
     for v, x, y in spec["vertices"]:
-        # keep away from rounding ties at three decimals
-        coords[vmap[v]] = (safe(x * scale, 3, 12), safe(y * scale, 3, 12))
+        # other coordinates keep away from rounding ties at three decimals
+        coords[vmap[v]] = (safe(x * scale + tx, 3, 12), safe(y * scale + ty, 3, 12))
+    if tie_x is not None:
+        coords[tie_x[0]] = (tie_x[1], coords[tie_x[0]][1])
+        coords[tie_y[0]] = (coords[tie_y[0]][0], tie_y[1])
     epool = [int(x) + 1 for x in rng.permutation(3 * len(spec["edges"]) + 20)]
     edges = {}
     byend = {}
@@ -49,6 +73,10 @@ def make_dump(rng, spec, path):
         k = epool[i]
         kind = int(rng.integers(0, 4))
         dens = safe(float(rng.uniform(0.1, 3.0)), 4, 7)
+        if rng.random() < 0.15:
+            dens = (2 * int(rng.integers(2, 47)) + 1) / 32.0          # an exact tie at four decimals
+        elif rng.random() < 0.15:
+            dens = float(rng.choice([0.54025, 1.96515, 2.87685, 2.60275]))   # next to a tie: numpy's rounding and Python's differ
         if rng.random() < 0.5:
             a, b = b, a
         edges[k] = (vmap[a], vmap[b], kind, dens)
@@ -64,7 +92,12 @@ def make_dump(rng, spec, path):
                 loop.append(byend[(a, b)])
             else:
                 loop.append(-byend[(b, a)])
-        faces.append((fpool[i], loop, safe(float(rng.uniform(-0.5, 0.5)), 4, 8)))
+        mult = safe(float(rng.uniform(-0.5, 0.5)), 4, 8)
+        if rng.random() < 0.15:
+            mult = (2 * int(rng.integers(-8, 8)) + 1) / 32.0
+        elif rng.random() < 0.15:
+            mult = float(rng.choice([0.54025, -0.54025, 0.19345, -0.31215]))
+        faces.append((fpool[i], loop, mult))
     # extra unattached vertices and edges (each extra edge touches at least one extra vertex)
     extra_v, extra_e = {}, {}
     used_v, used_e = set(coords), set(edges)
@@ -126,13 +159,72 @@ def make_dump(rng, spec, path):
             a, b, _, _ = edges[abs(e)]
             in_cell.add(a if e > 0 else b)
     exp = {"vertices": {k: (rnd(x, 3), rnd(y, 3)) for k, (x, y) in coords.items() if k in in_cell},
-           "edges": {k: (a, b, rnd(d, 4) if kind >= 2 else 1.0) for k, (a, b, kind, d) in edges.items() if a in in_cell and b in in_cell},
+           "edges": {k: (a, b, rnd_np(d, 4) if kind >= 2 else 1.0) for k, (a, b, kind, d) in edges.items() if a in in_cell and b in in_cell},
            "cells": {fid: ([edges[abs(e)][0] if e > 0 else edges[abs(e)][1] for e in loop], rnd(p, 4)) for fid, loop, p in faces}}
     return exp, lines, faces, wraps, edges, extra_e
 
 
 def tok_lit(t):
     return '"' + t.replace('"', '""') + '"'
+
+
+def section(lines, name, nxt):
+    a = next(i for i, ln in enumerate(lines) if ln.startswith(name))
+    b = next(i for i, ln in enumerate(lines) if ln.startswith(nxt))
+    return [ln.split() for ln in lines[a + 1:b] if ln.split()]
+
+
+def numeric_fields_case(res, se, lines, exprs, replay):
+    """every coordinate / density / multiplier the parser stored against Model/Round.v: coordinates and multipliers are Python's round() of a
+    Python float (exact rule `rhe` on the fraction of the token's double, and the stored double is the one nearest to that decimal:
+    `py_round`); densities pass through a pandas column, so round() is numpy's (`np_around`)"""
+    exact, pyf, npf = [], [], []
+    bad = []
+
+    def decimal_num(v, k):
+        m = round(Fraction(float(v)) * 10 ** k)
+        if float(Fraction(m, 10 ** k)) != float(v):
+            bad.append(f"stored value {float(v)!r} is not the double nearest to a {k}-decimal number")
+        return m
+    for t in section(lines, "vertices  ", "edges  "):
+        vid = int(t[0])
+        if vid not in se.vertices:
+            continue
+        for tok, got in ((t[1], se.vertices[vid].x), (t[2], se.vertices[vid].y)):
+            f = Fraction(float(tok))
+            exact.append((3, f.numerator, f.denominator, decimal_num(got, 3)))
+            pyf.append((3, float(tok), float(got)))
+    for t in section(lines, "edges  ", "faces  "):
+        eid = int(t[0])
+        if eid in se.edges and len(t) > 4 and t[3] == "density":
+            npf.append((4, float(t[4]), float(se.edges[eid].gt)))
+            decimal_num(se.edges[eid].gt, 4)
+    for t in section(lines, "bodies  ", "read"):
+        cid = int(t[0])
+        if cid in se.cells:
+            f = Fraction(float(t[7]))
+            exact.append((4, f.numerator, f.denominator, decimal_num(se.cells[cid].gt_pressure, 4)))
+            pyf.append((4, float(t[7]), float(se.cells[cid].gt_pressure)))
+    for b in bad[:2]:
+        res.fail("oracle", b, replay)
+    parts = []
+    for k in (3, 4):
+        e = [x for x in exact if x[0] == k]
+        if e:
+            parts.append(f"forallb (field_ok {k}) [" + "; ".join(f"({C.zlit(n)}, {d}, {C.zlit(m)})" for _, n, d, m in e) + "]%Z")
+        p = [x for x in pyf if x[0] == k]
+        if p:
+            parts.append(f"forallb (field_float_ok {k}) [" + "; ".join(f"({C.flit(a)}, {C.flit(b)})" for _, a, b in p) + "]")
+        q = [x for x in npf if x[0] == k]
+        if q:
+            parts.append(f"forallb (field_np_ok {k}) [" + "; ".join(f"({C.flit(a)}, {C.flit(b)})" for _, a, b in q) + "]")
+    if parts:
+        exprs.append((" && ".join("(" + x + ")" for x in parts), replay, "numeric fields (Model/Round.v)"))
+    ties = sum(1 for k, n, d, m in exact if (2 * n * 10 ** k) % d == 0 and (n * 10 ** k) % d != 0)
+    res.count("numeric fields tied", len(exact) + len(npf))
+    res.count("numeric fields on an exact rounding tie", ties)
+    res.count("densities next to a tie (numpy's rounding differs from Python's)", sum(1 for _, a, b in npf if round(a, 4) != b))
+    res.count("coordinates / multipliers next to a tie (numpy's rounding would differ)", sum(1 for k, a, b in pyf if float(np.around(np.float64(a), k)) != b))
 
 
 def check_dump(res, path, exp, lines, faces, wraps, edges, extra_e, exprs, label):
@@ -174,6 +266,8 @@ def check_dump(res, path, exp, lines, faces, wraps, edges, extra_e, exprs, label
     res.count(f"faces={min(len(exp['cells']) // 5 * 5, 30)}+")
     res.count("with-orphans" if extra_e or len(exp["vertices"]) < len(gotv) + 0 else "plain")
     res.sample({"label": label, "faces": len(exp["cells"]), "vertices": len(exp["vertices"]), "first_lines": lines[6:9]})
+    # ---- correspondence on the numeric fields: Model/Round.v on the double float() made of each token
+    numeric_fields_case(res, se, lines, exprs, replay)
     # ---- correspondence on the token level
     if faces:
         start = next(i for i, ln in enumerate(lines) if ln.startswith("faces  "))
@@ -243,7 +337,7 @@ def run(res, tier, seed):
         res.traces += 1
         if b is not True:
             res.fail("correspondence", f"model != implementation ({kind})" if b is False else f"case did not evaluate ({kind})",
-                     {"correspondence": f"Model/SEParse.v ({kind})", "case": {"label": rp["label"], "dump": rp["dump"][:4000]}})
+                     {"correspondence": f"Model/SEParse.v / Model/Round.v ({kind})", "case": {"label": rp["label"], "dump": rp["dump"][:4000]}})
 
 
 def search(res, tier, seed, broken):
